@@ -264,11 +264,10 @@ theorem filter_eq_map_const {k : String} {l : List String} (h : l.Nodup) {β : T
         have : x = a := by simpa using hxa
         subst this
         exact hnd.1 hx
-      simp [List.filter_cons, hfil]
+      simp [hfil]
     · have hka : ¬ k = a := fun h => hak h.symm
       have := ih hnd.2
-      simp only [List.filter_cons, beq_iff_eq, hak, if_false, this, List.contains_cons, hka,
-        Bool.false_or]
+      simp only [List.filter_cons, beq_iff_eq, hak, if_false, this, List.contains_cons]
       simp [hka]
 
 theorem pick_eq_filter {k : String} : ∀ {syms : List Sym}, (∀ s ∈ syms, s.prefixes.Nodup) →
@@ -282,6 +281,6 @@ theorem pick_eq_filter {k : String} : ∀ {syms : List Sym}, (∀ s ∈ syms, s.
     have := ih (fun t ht => h t (by simp [ht]))
     simp only [pick, List.flatMap_cons] at this ⊢
     rw [this, filter_eq_map_const hs s]
-    by_cases hk : k ∈ s.prefixes <;> simp [List.filter_cons, Sym.has, hk]
+    by_cases hk : k ∈ s.prefixes <;> simp [Sym.has, hk]
 
 end PymocaVerif.PyPrint
